@@ -143,6 +143,9 @@ func (vc *VC) execCallCommon(st *State, call *ssa.CallCommon, instr ssa.Instruct
 	if ci.contract.Inline && ci.fn != nil && ci.fn.Blocks != nil {
 		return vc.inlineCall(st, &ci, argVals, instr)
 	}
+	if vc.applyIteration(st, &ci, call, instr, argVals, site) {
+		return Val{}
+	}
 	return vc.applyContract(st, &ci, instr, site)
 }
 
@@ -511,7 +514,13 @@ func (vc *VC) havocAssigns(st *State, env *Env, c *Contract, pre *Heap) {
 		cur := vc.hget(st.heap, arr, u.sort)
 		es := arraySorts(u.sort)[1]
 		for _, idx := range u.idxs {
-			cur = app("store", cur, idx, vc.d.freshConst("havoc", es))
+			hv := vc.d.freshConst("havoc", es)
+			cur = app("store", cur, idx, hv)
+			// the unknown new content is a well-formed value of its sort
+			switch es {
+			case "Slice":
+				st.assume = append(st.assume, app(">=", app("sid", hv), "0"), app(">=", app("slen", hv), "0"), app(">=", app("soff", hv), "0"), implies(eq(app("sid", hv), "0"), eq(app("slen", hv), "0")), app("<=", app("slen", hv), maxLen))
+			}
 		}
 		vc.setHeap(st, arr, u.sort, cur)
 	}
